@@ -44,7 +44,8 @@ def fingerprint_hostname(hostname, strip_suffix=False):
         # TODO: this is not performant because the code path reparses again
         r = split_suffix(hostname)
 
-        if r is not None:
+        # NOTE: a host that is itself a public suffix keeps it
+        if r is not None and r[0]:
             hostname, _ = r
 
     return hostname
